@@ -41,3 +41,34 @@ Definition reads (g : geom) (i j oh ow y s : nat) : bool :=
 Definition cnt (g : geom) (y s : nat) : R :=
   Rsum (Z.to_nat (kH g)) (fun i => Rsum (Z.to_nat (kW g)) (fun j =>
   Rsum (Z.to_nat (outH RN g)) (fun oh => Rsum (Z.to_nat (outW RN g)) (fun ow => if reads g i j oh ow y s then 1 else 0)))).
+
+(* ---- lateral: what a history of assignments / updates leaves in the weight (resp. delay) matrix ---- *)
+Definition is_mat (n : nat) (m : list (list R)) : Prop := length m = n /\ forall r, In r m -> length r = n.
+(* entry (i, j) of a value assigned through a setter, after torch broadcasting against the n x n mask *)
+Definition bval_at (v : bval RN) (i j : nat) : R :=
+  match v with VMat _ m => mat_at m i j | VScalar _ s => s | VRow _ r => nth j r 0 | VCol _ c => nth i c 0 end.
+Definition wf_bval (n : nat) (v : bval RN) : Prop :=
+  match v with VMat _ m => is_mat n m | VScalar _ _ => True | VRow _ r => length r = n | VCol _ c => length c = n end.
+(* entry (i, j) of the sum of a list of update parts *)
+Fixpoint parts_at (parts : list (list (list R))) (i j : nat) : R :=
+  match parts with [] => 0 | p :: t => mat_at p i j + parts_at t i j end.
+(* masking: the diagonal is forced to zero *)
+Definition off (i j : nat) (v : R) : R := if (i =? j)%nat then 0 else v.
+Definition wstep (w : nat -> nat -> R) (o : lop RN) : nat -> nat -> R :=
+  match o with
+  | OpSetW _ v => fun i j => off i j (bval_at v i j)
+  | OpUpd _ pw nw _ _ => fun i j => off i j (w i j + parts_at pw i j - parts_at nw i j)
+  | _ => w
+  end.
+Definition dstep (d : nat -> nat -> R) (o : lop RN) : nat -> nat -> R :=
+  match o with
+  | OpSetD _ v => fun i j => off i j (bval_at v i j)
+  | OpUpd _ _ _ pd nd => fun i j => off i j (d i j + parts_at pd i j - parts_at nd i j)
+  | _ => d
+  end.
+Definition wf_op (n : nat) (o : lop RN) : Prop :=
+  match o with
+  | OpSetW _ v | OpSetD _ v => wf_bval n v
+  | OpUpd _ pw nw pd nd => Forall (is_mat n) pw /\ Forall (is_mat n) nw /\ Forall (is_mat n) pd /\ Forall (is_mat n) nd
+  | _ => True
+  end.
